@@ -172,6 +172,24 @@ def enclosing_loops(prov, fn, bid):
     return out
 
 
+def error_exit_blocks(fn):
+    """blocks in which the function's result is made an error: `from_residual(..)` of a `?`, or an `Err(..)` aggregate, put into
+    the return place (or a local that is moved there)"""
+    rc = ret_carriers(fn)
+    out = []
+    for b, t in fn.calls():
+        # (`?` makes its error the result of the function it stands in - after splicing (vlib/inline.py A8) that is a local
+        # the caller goes on to test; the value the loop was computing is not produced on that path either way)
+        if t["callee"].get("trait") == "std::ops::FromResidual":
+            out.append(b)
+    for b, i, st in fn.stmts():
+        rv = st.get("rv", {})
+        if st["k"] == "assign" and not st["dst"]["p"] and st["dst"]["l"] in rc and rv.get("k") == "aggregate" and \
+                (rv.get("adt") or "").endswith("Result") and rv.get("variant") == "Err":
+            out.append(b)
+    return sorted(set(out))
+
+
 def loop_is_exhaustive(fn, nb, ab):
     """the loop driven by the `next()` call in block `nb` runs block `ab` once for every element and ends only when the iterator
     is exhausted: once `next` has yielded an element, neither the next request nor anything behind the loop is reached
@@ -185,8 +203,10 @@ def loop_is_exhaustive(fn, nb, ab):
     rets = set(cf.return_blocks())
     loop = {b for b in fn.order if b == nb or (cf.can_reach(nb, b) and cf.can_reach(b, nb))}
     live_out = {b for b in fn.order if b not in loop and (b in rets or any(cf.can_reach(b, r) for r in rets))}
-    skip = cf.reachable_from(some[0], avoid=[ab])
-    stop = cf.reachable_from(some[0], avoid=[nb])
+    # leaving with an error (`f(..)?` inside the body) fails the whole function: not a way of ending the loop early
+    errs = error_exit_blocks(fn)
+    skip = cf.reachable_from(some[0], avoid=[ab] + errs)
+    stop = cf.reachable_from(some[0], avoid=[nb] + errs)
     return nb not in skip and not (live_out & set(skip)) and not (live_out & set(stop))
 
 
